@@ -523,6 +523,13 @@ def _hashlast_rule(chk, prog):
             if x.k == "asg" and x.op == "=" and (any(x.kids[0].in_macro(m) for m in HASHM) or (x.kids[0].k == "mem" and x.kids[0].field == "hash")):
                 calls = [c for c in x.kids[1].walk() if c.k == "call" and (c.callee or "").endswith("calchash")]
                 if not calls:
+                    # the hash may be computed into a local first: `int32_t h = calchash(obj, ...); ...; hash(obj) = h;`
+                    r = strip_casts(x.kids[1])
+                    if is_ref(r):
+                        for d in fn.nodes:
+                            if d.k == "vardecl" and d.name == r.name and d.kids:
+                                calls = [c for c in d.kids[0].walk() if c.k == "call" and (c.callee or "").endswith("calchash")]
+                if not calls:
                     continue
                 obj = [r.name for r in x.kids[0].walk() if r.k == "ref" and r.d.get("d") in ("var", "parm")]
                 src = [r.name for r in calls[0].args[0].walk() if r.k == "ref"] if calls[0].args else []
